@@ -248,14 +248,62 @@ func (w *Worker) Cases(group string, n int, f func(c *Case)) {
 	}
 }
 
-var blockedStates = regexp.MustCompile(`^goroutine \d+ \[(chan receive|chan send|select|semacquire|sync\.Mutex\.Lock|sync\.RWMutex\.R?Lock|sync\.Cond\.Wait|sync\.WaitGroup\.Wait|select \(no cases\)|chan receive \(nil chan\)|sleep|IO wait|GC [a-z ]+|finalizer wait|force gc \(idle\)|debug call|cleanup wait|trace reader \(blocked\)|syscall)(, \d+ minutes)?(, locked to thread)?\]:`)
+var activeState = regexp.MustCompile(`^goroutine \d+ \[(running|runnable|copystack|preempted|waiting|dead|enqueue|dumping goroutines)`)
+
+// Settle waits until every goroutine other than the caller is parked (channel
+// operation, select, mutex, semaphore, condition variable - not sleeping or
+// runnable) in two consecutive looks, i.e. until the system under test has
+// done everything it can do without another stimulus. It returns false if that
+// does not happen within the timeout (the caller treats that as inconclusive,
+// never as a violation by itself).
+func Settle(timeout time.Duration) bool {
+	deadline := time.Now().Add(timeout)
+	okCount := 0
+	pause := 20 * time.Microsecond
+	for {
+		runtime.Gosched()
+		_, b := allBlocked(false)
+		if b {
+			okCount++
+			if okCount >= 2 {
+				return true
+			}
+		} else {
+			okCount = 0
+		}
+		if time.Now().After(deadline) {
+			return false
+		}
+		time.Sleep(pause)
+		if pause < 2*time.Millisecond {
+			pause *= 2
+		}
+	}
+}
 
 // AllBlocked returns the full goroutine dump and whether every goroutine other
 // than the caller is in a blocked state.
-func AllBlocked() (string, bool) {
-	buf := make([]byte, 1<<22)
-	n := runtime.Stack(buf, true)
-	dump := string(buf[:n])
+func AllBlocked() (string, bool) { return allBlocked(true) }
+
+var (
+	stackMu  sync.Mutex
+	stackBuf []byte
+)
+
+var sleepState = regexp.MustCompile(`^goroutine \d+ \[(sleep|IO wait|syscall)`)
+
+func allBlocked(sleepIsBlocked bool) (string, bool) {
+	stackMu.Lock()
+	if stackBuf == nil {
+		stackBuf = make([]byte, 1<<18)
+	}
+	n := runtime.Stack(stackBuf, true)
+	for n == len(stackBuf) && len(stackBuf) < 1<<26 {
+		stackBuf = make([]byte, 2*len(stackBuf))
+		n = runtime.Stack(stackBuf, true)
+	}
+	dump := string(stackBuf[:n])
+	stackMu.Unlock()
 	blocked := true
 	first := true
 	for _, g := range strings.Split(dump, "\n\n") {
@@ -270,7 +318,9 @@ func AllBlocked() (string, bool) {
 		if !strings.HasPrefix(line, "goroutine ") {
 			continue
 		}
-		if !blockedStates.MatchString(line) {
+		if activeState.MatchString(line) {
+			blocked = false
+		} else if !sleepIsBlocked && sleepState.MatchString(line) {
 			blocked = false
 		}
 	}
